@@ -429,6 +429,14 @@ func r073(c *Ctx) {
 					}
 				}
 			}
+			// the page size is judged with an empty token: token == "" holds
+			if bo, ok := v.(*ssa.BinOp); ok && (bo.Op == token.EQL || bo.Op == token.NEQ) {
+				for _, side := range []ssa.Value{bo.X, bo.Y} {
+					if kc, isK := side.(*ssa.Const); isK && kc.Value != nil && kc.Value.ExactString() == `""` {
+						return core.WBool(bo.Op == token.EQL), true
+					}
+				}
+			}
 			return core.WVal{}, false
 		}
 		w.OnInstr = func(ins ssa.Instruction, w *core.Walker) bool {
@@ -443,7 +451,7 @@ func r073(c *Ctx) {
 			}
 			if ret, ok := ins.(*ssa.Return); ok && len(ret.Results) == 2 {
 				// error result produced by a constructor call (not parsePageToken) = rejected
-				if call, ok := ret.Results[1].(*ssa.Call); ok && !core.IsCallTo(call, "parsePageToken") {
+				if call, ok := ret.Results[1].(*ssa.Call); ok && !(call.Common().StaticCallee() != nil && core.FuncPkg(call.Common().StaticCallee()) != nil && core.FuncPkg(call.Common().StaticCallee()).Path() == sqlPkgPath) {
 					rejected = true
 				}
 				if _, ok := ret.Results[1].(*ssa.MakeInterface); ok {
@@ -468,36 +476,93 @@ func r073(c *Ctx) {
 	}
 	r.Check(len(bad) == 0, "R07.3", name, "page size handling", p.Pos(fn.Pos()),
 		fmt.Sprintf("0 means the default (%d), positive sizes are kept, negative sizes are rejected (%d representatives)", defaultSize, n), strings.Join(bad, "; "))
-	// empty token -> zero uuid
-	pt := p.Func("(*internal/persistence/sql.internalPagination).parsePageToken")
-	if pt == nil {
-		r.Undecide("R07.3", "", "anchor parsePageToken", "", "not found")
-		return
-	}
-	okEmpty := false
-	core.Instrs(pt, func(b *ssa.BasicBlock, _ int, ins ssa.Instruction) {
-		st, ok := ins.(*ssa.Store)
-		if !ok {
-			return
+	// empty token -> zero uuid: in every function that parses the pagination options, on the
+	// paths on which the token is empty the last value stored to LastID (if any) is uuid.Nil
+	// (a cursor that is never stored is the zero value of a fresh struct, which is uuid.Nil)
+	nStores := 0
+	for _, pf := range paginationParsers(p) {
+		isToken := func(v ssa.Value) bool {
+			o := core.ValueOrigin(v)
+			if par, ok := o.(*ssa.Parameter); ok {
+				return isStringT2(par.Type())
+			}
+			if u, ok := o.(*ssa.UnOp); ok && u.Op == token.MUL {
+				if fa, ok := u.X.(*ssa.FieldAddr); ok && fieldVarOf(fa) != nil && fieldVarOf(fa).Name() == "Token" {
+					return true
+				}
+			}
+			return false
 		}
-		fa, ok := st.Addr.(*ssa.FieldAddr)
-		if !ok || fieldVarOf(fa) == nil || fieldVarOf(fa).Name() != "LastID" {
-			return
+		nonEmpty := map[[2]*ssa.BasicBlock]bool{}
+		for _, b := range pf.Blocks {
+			if len(b.Instrs) == 0 {
+				continue
+			}
+			ifi, ok := b.Instrs[len(b.Instrs)-1].(*ssa.If)
+			if !ok {
+				continue
+			}
+			for k := 0; k < 2; k++ {
+				op, x, y, ok := core.Cond{V: ifi.Cond, True: k == 0, At: b}.Holds()
+				if !ok || op != token.NEQ {
+					continue
+				}
+				if kc, isK := y.(*ssa.Const); isK && kc.Value != nil && kc.Value.ExactString() == `""` && isToken(x) {
+					nonEmpty[[2]*ssa.BasicBlock{b, b.Succs[k]}] = true
+				}
+			}
 		}
-		for _, cd := range core.CondsAt(b) {
-			if op, x, y, ok := core.BinCmp(cd.V); ok && op == token.EQL && cd.True {
-				if k, ok := y.(*ssa.Const); ok && k.Value != nil && k.Value.ExactString() == `""` && core.ValueOrigin(x) == ssa.Value(pt.Params[1]) {
-					if u, ok := st.Val.(*ssa.UnOp); ok {
-						if g, ok := u.X.(*ssa.Global); ok && g.Name() == "Nil" {
-							okEmpty = true
+		// forward: which "last stored cursor" states reach each block (bit 0 none, 1 nil uuid, 2 other)
+		in := make([]int, len(pf.Blocks))
+		in[0] = 1
+		badPos := token.NoPos
+		for changed := true; changed; {
+			changed = false
+			for _, b := range pf.Blocks {
+				st := in[b.Index]
+				if st == 0 {
+					continue
+				}
+				for _, ins := range b.Instrs {
+					switch x := ins.(type) {
+					case *ssa.Store:
+						fa, ok := x.Addr.(*ssa.FieldAddr)
+						if !ok || fieldVarOf(fa) == nil || fieldVarOf(fa).Name() != "LastID" {
+							continue
 						}
+						nStores++
+						st = 4
+						if u, ok := x.Val.(*ssa.UnOp); ok {
+							if g, ok := u.X.(*ssa.Global); ok && g.Name() == "Nil" {
+								st = 2
+							}
+						}
+					case *ssa.Return:
+						if st&4 != 0 {
+							badPos = x.Pos()
+							if !badPos.IsValid() {
+								badPos = lastPosIn(b)
+							}
+						}
+					}
+				}
+				for _, sc := range b.Succs {
+					if nonEmpty[[2]*ssa.BasicBlock{b, sc}] {
+						continue
+					}
+					if in[sc.Index]|st != in[sc.Index] {
+						in[sc.Index] |= st
+						changed = true
 					}
 				}
 			}
 		}
-	})
-	r.Check(okEmpty, "R07.3", core.FuncName(pt), "empty token", p.Pos(pt.Pos()),
-		"an empty token starts at the zero uuid", "an empty page token does not map to the zero cursor")
+		r.Check(!badPos.IsValid(), "R07.3", core.FuncName(pf), "empty token", p.Pos(pf.Pos()),
+			"on the paths on which the token is empty the cursor is the zero uuid", "with an empty page token a path returns a cursor other than the zero uuid (at "+p.Pos(badPos)+")")
+	}
+	if nStores == 0 {
+		r.Undecide("R07.3", "", "cursor stores", "", "no store to the cursor field LastID found in the pagination parsers")
+	}
 }
 
 // ---- R07.4 malformed input is a 4xx ---------------------------------------------------------------
@@ -602,14 +667,16 @@ func globalErrCode(p *core.Program, g *ssa.Global, depth int) (int64, string) {
 func r074(c *Ctx) {
 	p, r := c.P, c.R
 	// every parser of request text on the pagination path
-	fns := []string{"(*internal/persistence/sql.internalPagination).parsePageToken", "internal/persistence/sql.internalPaginationFromOptions"}
+	fns := paginationParsers(p)
+	if len(fns) == 0 {
+		r.Undecide("R07.4", "internal/persistence/sql.internalPaginationFromOptions", "anchor", "", "not found")
+	}
+	inSet := map[*ssa.Function]bool{}
+	for _, fn := range fns {
+		inSet[fn] = true
+	}
 	n := 0
-	for _, fname := range fns {
-		fn := p.Func(fname)
-		if fn == nil {
-			r.Undecide("R07.4", fname, "anchor", "", "not found")
-			continue
-		}
+	for _, fn := range fns {
 		core.Instrs(fn, func(_ *ssa.BasicBlock, _ int, ins ssa.Instruction) {
 			ret, ok := ins.(*ssa.Return)
 			if !ok {
@@ -619,8 +686,8 @@ func r074(c *Ctx) {
 				if !isErr(rv.Type()) || core.IsNilConst(rv) {
 					continue
 				}
-				if call, ok := rv.(*ssa.Call); ok && core.IsCallTo(call, "parsePageToken") {
-					continue // checked in parsePageToken itself
+				if call, ok := rv.(*ssa.Call); ok && call.Common().StaticCallee() != nil && inSet[call.Common().StaticCallee()] {
+					continue // checked in that function itself
 				}
 				n++
 				code, why := herodotCode(p, rv, 0)
@@ -637,6 +704,41 @@ func r074(c *Ctx) {
 	if n < 2 {
 		r.Undecide("R07.4", "", "pagination error returns", "", fmt.Sprintf("%d non-nil error returns found on the pagination parsing path (floor 2)", n))
 	}
+}
+
+// paginationParsers: internalPaginationFromOptions and the functions of the package it calls
+// (statically, two levels) that return an error - the code that parses the page size and token.
+func paginationParsers(p *core.Program) []*ssa.Function {
+	root := p.Func("internal/persistence/sql.internalPaginationFromOptions")
+	if root == nil {
+		return nil
+	}
+	out := []*ssa.Function{root}
+	seen := map[*ssa.Function]bool{root: true}
+	for depth, level := 0, []*ssa.Function{root}; depth < 2; depth++ {
+		var next []*ssa.Function
+		for _, fn := range level {
+			core.Instrs(fn, func(_ *ssa.BasicBlock, _ int, ins ssa.Instruction) {
+				ci, ok := ins.(ssa.CallInstruction)
+				if !ok {
+					return
+				}
+				sc := ci.Common().StaticCallee()
+				if sc == nil || seen[sc] || sc.Blocks == nil || core.FuncPkg(sc) == nil || core.FuncPkg(sc).Path() != sqlPkgPath {
+					return
+				}
+				res := sc.Signature.Results()
+				if res.Len() == 0 || !isErr(res.At(res.Len()-1).Type()) {
+					return
+				}
+				seen[sc] = true
+				out = append(out, sc)
+				next = append(next, sc)
+			})
+		}
+		level = next
+	}
+	return out
 }
 
 // ---- R07.5 internal consumers loop to the empty token -----------------------------------------------
